@@ -55,8 +55,12 @@ def model(seq, tau, noncorr, n):
 def transition_matrix_is_symmetrised_count_model(self, tau, noncorrelated_windows, result):
     mon = "C12.transition_matrix"
     try:
-        seq = np.asarray(self.assigned_trajectory, dtype=float)
-        n = int(self.total_num_cells)
+        # the model's input is what the CALLER handed to the constructor (recorded there), not what the object kept of it: a
+        # constructor that "tidies" the trajectory (strips or compacts unassigned frames) shifts the window origin
+        given = getattr(self, "_verif_given", None)
+        seq = given[0] if given is not None else np.asarray(self.assigned_trajectory, dtype=float)
+        n = given[1] if given is not None else int(self.total_num_cells)
+        REC.classes["model input = constructor argument" if given is not None else "model input = object state"] += 1
         if n > 3000:
             return _judge_large(self, seq, n, tau, noncorrelated_windows, result)
         T, rows, counted = model(seq, tau, bool(noncorrelated_windows), n)
@@ -120,8 +124,17 @@ def _judge_large(self, seq, n, tau, noncorr, result):
     return True
 
 
+def constructor_argument_recorded(arguments, result, exc):
+    if exc is None:
+        try:
+            arguments["self"]._verif_given = (np.array(arguments["assigned_trajectory"], dtype=float, copy=True), int(arguments["total_num_cells"]))
+        except Exception:
+            pass
+
+
 def install():
     from molgri.molecules.transitions import MSM
+    attach.outcome(MSM, "__init__", constructor_argument_recorded)
     attach.ensure(MSM, "get_one_tau_transition_matrix", transition_matrix_is_symmetrised_count_model)
     return MSM
 
